@@ -2488,10 +2488,22 @@ class Parameters:
         # would need to handle the params() cache as well
         # (which is tricky but important for startup speed).
         cls = self_.cls
+        missing = object()
+        previous = cls.__dict__.get(param_name, missing)
         type.__setattr__(cls, param_name, param_obj)
-        ParameterizedMetaclass._initialize_parameter(cls, param_name, param_obj)
-        # delete cached params()
-        cls._clear_params_cache()
+        try:
+            ParameterizedMetaclass._initialize_parameter(cls, param_name, param_obj)
+        except Exception:
+            # A Parameter rejected when its inherited attributes are merged
+            # (e.g. an invalid default) must not stay on the class
+            if previous is missing:
+                type.__delattr__(cls, param_name)
+            else:
+                type.__setattr__(cls, param_name, previous)
+            raise
+        finally:
+            # delete cached params()
+            cls._clear_params_cache()
 
     # PARAM3_DEPRECATION
     @_deprecated(extra_msg="Use instead `.param.add_parameter`", warning_cat=_ParamFutureWarning)
